@@ -213,6 +213,7 @@ fn hazard_cfg(t: &mut Tape) -> GenCfg {
 
 impl Prop for Schedules {
     type Case = Case;
+    crate::prog_shrink!();
     fn name(&self) -> String {
         "C09/schedules".into()
     }
@@ -265,6 +266,7 @@ pub fn build_once_cli(dir: &str, w: usize) {
 
 impl Prop for FreshProcess {
     type Case = Case;
+    crate::prog_shrink!();
     fn name(&self) -> String {
         "C09/fresh-process".into()
     }
